@@ -62,4 +62,54 @@ def outcome (catchBase : Bool) (b : Backend) (st : Style) (pt : Point) (k : Kind
   | .finish, .kbd => ⟨.interrupt, true, false⟩                               -- already marked committed: rollback() is a no-op
   | .finish, _ => ⟨.ok, true, false⟩                                         -- marker removal is best effort
 
+/-! ### `Transaction.__exit__` (the with-block ends) -/
+
+/-- what the body of the with-block ended with -/
+inductive BodyEnd where
+  | normal            -- the body ran to its end
+  | exception         -- an `Exception` subclass propagates
+  | interrupt         -- KeyboardInterrupt / SystemExit (a `BaseException` that is not an `Exception`) propagates
+deriving DecidableEq, Repr, Inhabited
+
+inductive ExitAct where
+  | commit | rollback | nothing
+deriving DecidableEq, Repr, Inhabited
+
+/-- `__exit__`: an inactive transaction (already committed / rolled back in the body) is left alone; ANY exception type rolls
+back; only a normal end commits what is still pending -/
+def exitAction (e : BodyEnd) (active : Bool) : ExitAct :=
+  if !active then .nothing else match e with
+    | .normal => .commit
+    | _ => .rollback
+
+/-- the variant that tests `isinstance(exc, Exception)` — what the property excludes -/
+def exitActionExceptionOnly (e : BodyEnd) (active : Bool) : ExitAct :=
+  if !active then .nothing else match e with
+    | .exception => .rollback
+    | _ => .commit
+
+/-! ### a Transaction object used again (`begin()` after a finished attempt) -/
+
+/-- what a transaction remembers: files it wrote that a rollback would delete -/
+structure TxMem where
+  written : List Nat
+deriving DecidableEq, Repr, Inhabited
+
+/-- end of an attempt: committed / ambiguous keep the files on disk and — ambiguous — deliberately also in `written`;
+a clean failure deletes `written` -/
+inductive AttemptEnd where
+  | committed | ambiguous | cleanFailure
+deriving DecidableEq, Repr, Inhabited
+
+/-- `begin()` resets the memory (`resetOnBegin = true`: the code; `false`: the variant relying on the previous end to clear it);
+returns (memory after the attempt, files deleted by the attempt's rollback) -/
+def attempt (resetOnBegin : Bool) (m : TxMem) (newFiles : List Nat) (e : AttemptEnd) : TxMem × List Nat :=
+  let m0 : TxMem := if resetOnBegin then ⟨[]⟩ else m
+  let m1 : TxMem := ⟨m0.written ++ newFiles⟩
+  match e with
+  | .committed => (⟨[]⟩, [])
+  | .ambiguous => (m1, [])
+  | .cleanFailure => (⟨[]⟩, m1.written)
+
+
 end DSV.CommitFault
